@@ -25,6 +25,10 @@
 (*         1: +1e-9 or the next double (below float32 resolution: the      *)
 (*         encoder's float32 vector cannot tell it from 0 -- either reading*)
 (*         is accepted).  Only on non-zero ticks.  Absent f = all 0.       *)
+(*         and optionally conf: the detection confidence of the item's     *)
+(*         sound event prediction in quarters (4: 1.0, 2: 0.5, 1: 0.25,    *)
+(*         0: left at its default).  No meaning for Req: every metric is   *)
+(*         defined on the truths and the TAG scores only.                  *)
 (*   clips sequence of sequences of item indices (cc/cml: one item each;   *)
 (*         sec/sed: the sound events of each clip, possibly none)          *)
 (*   extras sequence of [pos, side]: clips that are in ONE input only      *)
